@@ -328,11 +328,26 @@ time_t handle_timeout(struct handler *handler, struct trace *trace) {
       return 0;
     }
 
+    size_t path_length = strlen(get_path(head));
+    bool is_project_head = get_metadata(head) & linq_meta_is_project;
+    if (*get_path(head) != '/' ||
+        get_metadata(head) >> linq_meta_project_offset > path_length ||
+        (path_length < handler->common_parent_path_length &&
+         !is_project_head)) {
+      throw_context(get_path(head), trace);
+      throw_static(messages.linq.invalid_entry, trace);
+      free_linq_head(head);
+      free(version);
+      return 0;
+    }
+
     const char *event = get_event_queue_head_stored(handler->config);
     const char *relative_path =
-        get_path(head) + handler->common_parent_path_length;
+        get_path(head) + (path_length < handler->common_parent_path_length
+                              ? path_length
+                              : handler->common_parent_path_length);
 
-    if (get_metadata(head) & linq_meta_is_project) {
+    if (is_project_head) {
       const char *project_name = strrchr(get_path(head), '/') + 1;
       struct store_path *store_path =
           create_store_path(get_project_store_root(handler->config),
